@@ -255,6 +255,13 @@ pub fn c05(fx: &mut Fx) {
             }
         }
     }
+    // body lengths around powers of two and around 51200 (the crate's request payload limit)
+    for len in [1023usize, 1024, 1025, 32767, 32768, 51199, 51200, 51201, 65535, 65536] {
+        for code in [200u64, 204, 400] {
+            let body: Vec<u8> = (0..len).map(|i| b'a' + (i % 26) as u8).collect();
+            fx.push(json!({"e": "resp", "resp": {"v": "1.1", "code": code, "ops": [{"op": "body", "bytes": obs::bytes(&body)}]}, "sink": [4096]}));
+        }
+    }
     // random: up to 8 calls, bodies up to 64 KiB, sinks accepting 1..n bytes per write
     let n = if fx.thorough { 6000 } else { 600 };
     for i in 0..n {
@@ -290,6 +297,16 @@ pub fn c14(fx: &mut Fx) {
         let kc = fx.rng.gen_range(0..4);
         let cuts = gram::random_cuts(&mut fx.rng, b.len(), kc);
         fx.push(json!({"e": "oneshot", "bytes": obs::bytes(&b), "max": -1, "limit": obs::digits(51200), "cuts": cuts}));
+    }
+    for blen in [1usize, 9, 10, 11, 16, 51199, 51200, 51201] {
+        for limit in [blen as u128, blen as u128 + 1, (blen as u128).saturating_sub(1), 51200] {
+            let body = gram::rand_body(&mut fx.rng, blen);
+            let r = gram::Req { method: b"PUT".to_vec(), uri: b"/lim".to_vec(), version: b"HTTP/1.1".to_vec(),
+                                headers: vec![format!("Content-Length: {}", blen).into_bytes()], body };
+            let b = r.bytes();
+            let cuts = gram::random_cuts(&mut fx.rng, b.len(), 2);
+            fx.push(json!({"e": "oneshot", "bytes": obs::bytes(&b), "max": -1, "limit": obs::digits(limit), "cuts": cuts}));
+        }
     }
     let n = if fx.thorough { 4000 } else { 400 };
     let o = Opts { max_body: 30, ..Opts::default() };
